@@ -6,7 +6,7 @@ OPS = ["overflowing_shl", "overflowing_shr", "checked_shl", "checked_shr", "wrap
 
 
 def _gen_main(rng, tier):
-    reps = 150 if tier == "thorough" else 20
+    reps = 200 if tier == "thorough" else 100
     for cfg in cfgs(tier):
         w, n = wn(cfg)
         for _ in range(reps if n <= 40 else 10):
